@@ -9,9 +9,11 @@ package pcache
 // Save, load). Simulated: the file (a byte slice behind fault-injecting ReadAt/WriteAt/Truncate
 // closures), the clock (an explicit "now": the code takes time as an argument), process death.
 //
-// Two kinds of run: "cache" (MappingsCache on top of the storage; two caller tasks interleave at
-// operation granularity) and "raw" (ChunkedStorage2 used directly the way metajournal and the
-// package's own test use it: read to the end, then append or rewrite).
+// Three kinds of run: "cache" (MappingsCache on top of the storage; two caller tasks interleave at
+// operation granularity), "raw" (ChunkedStorage2 used directly the way metajournal's journal and the
+// package's own test use it: read to the end, then append or rewrite; a failed save is followed by a
+// rewrite) and "append" (w8_append_test.go: an owner that only ever appends, the way
+// metajournal.MappingsStorage.Save does, also after a failed save).
 //
 // The code under test iterates Go maps (eviction candidates in AddValues, the visited subset in
 // RemoveByTTL(maxCount<len), Save order when !deterministic). Outcomes that depend on that order
@@ -1777,11 +1779,15 @@ func w8Exec(t *testing.T, r *verifsim.Run) {
 			}
 		}
 	}()
-	if r.C.Intn(4, "mode") == 3 {
+	// values 0..3 keep their earlier meaning (0-2 cache, 3 raw), so that older replay files still replay
+	switch r.C.Intn(5, "mode") {
+	case 3:
 		w8RawRun(r)
-		return
+	case 4:
+		w8AppendRun(r)
+	default:
+		w8Cache(r)
 	}
-	w8Cache(r)
 }
 
 func TestVerifW8(t *testing.T) {
